@@ -6,6 +6,32 @@ ALL = ["C%02d" % i for i in range(1, 21)]
 
 # id -> (technique, level text, level_note, design_ref)
 CLAIMS = {
+ "C08": ("Lean 4 proof that the regex brush emits for a pattern decides POSIX glob matching (on a backtracking regex semantics) + structural and engine-level correspondence",
+         "Proof: Model/Pattern.lean mirrors the PEG rules of brush-parser/src/pattern.rs (parsePat), the translation to regex text (toRe/render) and a "
+         "backtracking semantics for the regex subset emitted, including the `(?ms)^…$` search brush performs; Spec/Glob.lean is the POSIX whole-string "
+         "relation Matches. toRe_correct_partial / full_match_correct_partial / exactly_matches_correct_partial: for every pattern at any nesting and every "
+         "string the emitted regex matches exactly what Matches says (guards: no !(…) group, no named class under nocasematch, no newline in the subject), "
+         "with proved counter-examples for each guard (anchor_cex, not_group_cex, bracket_leading_rbracket_cex, nocase_class_cex); matchB_iff (executable "
+         "oracle = Matches incl. !(…)); globDir_sound/_complete/_hides_dotfiles. Tie: regex text string-equal for all patterns to length 4/5 over 17 "
+         "characters; Pattern::exactly_matches vs the regex model on ~10 M (pattern, subject) pairs; case / [[ == ]] / ${v##p} / pathname expansion in the "
+         "binary vs bash, the model and the spec.",
+         "Trusted: Lean kernel + standard axioms; the fancy_regex engine is modelled (its semantics for the emitted subset is validated on every pair; one "
+         "engine defect was found that way and is a recorded finding); add_missing_escape_chars_to_regex is assumed to be the identity on emitted text. "
+         "Malformed pattern text is compared model-vs-brush only.",
+         "DESIGN.md §6 C08"),
+ "C15": ("Lean 4 proofs: memo-cache transparency (any key-determined function, any history, any capacity) over cache keys regenerated from the source; "
+         "stdin chunking theorem; delivery-mode correspondence",
+         "Proof: Model/Cache.lean (the cached-crate store discipline incl. not storing Err) and translators extracting every #[cached] function and the regex "
+         "LRU with their key expressions, and TokenizerError::is_incomplete, into Gen/. memo_transparent, memo_key_must_determine (converse), "
+         "keys_cover_params (decide over the generated table: every parameter incl. every field of the option structs is in the key), "
+         "gen_caches_transparent; Model/Accumulate.lean: accumulate_runs_maximal_complete_chunks (for every completeness predicate the stdin reader hands "
+         "over a command as soon as and only when the text read so far is complete), accumulate_loses_nothing, bad_token_never_waits, "
+         "unterminated_kinds_incomplete, stdin_lineno_eq_file_lineno. Tie: the real MinimalInputBackend reader in-process on a pipe vs the chunk model and a "
+         "bash stdin-offset oracle; file / -c / source / eval / stdin delivery in both shells; parse caches exercised in one long-lived process under "
+         "alternating option settings vs fresh processes.",
+         "Trusted: Lean kernel + standard axioms; the translators (raise when an item changes shape). That the real parser's completeness classes agree with "
+         "bash on every prefix is checked differentially, not proved. Cache hit/miss traces are not observable (private statics).",
+         "DESIGN.md §6 C15"),
  "C14": ("Lean 4 lexing/adjacency proofs on a model of the AST pretty-printer + print/parse fixed-point correspondence in-process and through both shells",
          "Proof: Model/Print.lean mirrors every Display impl of brush-parser/src/ast.rs (13 mutual node types, the indenter, where blanks are and "
          "are not written) and a token reader. Theorems for all texts / word lists / redirect lists: lex_indent (indentation never changes the tokens), "
